@@ -132,12 +132,12 @@ class C02(PropBase):
                 f = peers.Failing(enc_f, fail["k"])
                 outs = [sess.guarded(sess.call, step, typelib.encode, v, t=T, encoder=f) for _ in range(fail["k"] + 1)]
                 bad = outs[fail["k"] - 1]
-                if bad.ok or not isinstance(bad.exc, peers.PeerFailure):
-                    # a marshal error before the encoder is reached is legitimate; then every call fails alike
-                    if not all((not o.ok) and type(o.exc) is type(outs[0].exc) for o in outs):
-                        rec["viol"].append(("peer-failure-swallowed", {"side": "enc", "got": repr(bad)[:160]}))
-                elif not outs[-1].ok:
-                    rec["viol"].append(("peer-failure-poisoned", {"side": "enc", "after": repr(outs[-1])[:160]}))
+                ref = sess.guarded(sess.call, step, typelib.encode, v, t=T, encoder=enc_f)
+                if ref.ok and (bad.ok or not isinstance(bad.exc, peers.PeerFailure)):
+                    rec["viol"].append(("peer-failure-swallowed", {"side": "enc", "got": repr(bad)[:160]}))
+                elif outs[-1].canon() != ref.canon():
+                    # after the failure the same call must behave as it does with a healthy peer
+                    rec["viol"].append(("peer-failure-poisoned", {"side": "enc", "after": repr(outs[-1])[:160], "healthy": repr(ref)[:160]}))
 
         # ---- encode through the three entry points
         e1 = sess.guarded(sess.call, step, typelib.encode, v, t=T, **kw_e)
